@@ -289,6 +289,49 @@ def _unit(unit):
     return acc
 
 
+# ---------------------------------------------------------------- names that are keywords elsewhere: explicit optional-blank slots
+# \u00a7 marks a position where the grammar allows optional whitespace (inside parentheses, around commas and the lambda colon)
+RAW_TEMPLATES = ["(\u00a7{N}\u00a7) eq 1", "x in (\u00a7{N}\u00a7,\u00a71\u00a7)", "x in (1\u00a7,\u00a7{N}\u00a7)", "length(\u00a7{N}\u00a7) eq 1", "(a eq {N}\u00a7)", "(\u00a7{N} eq a)",
+                 "xs/any(\u00a7{N}\u00a7:\u00a7{N}/p eq 1\u00a7)", "ns.f(\u00a7{N}\u00a7,\u00a7{N}\u00a7)", "ns.f(p={N}\u00a7,\u00a7q=1)", "(\u00a7{N}\u00a7,\u00a7) eq (1,)", "not (\u00a7{N}\u00a7)"]
+RAW_NAMES = ["not", "NOT", "Not", "in", "and", "or", "eq", "add", "any", "all", "fal\u017fe", "\u017fub"]
+
+
+def _raw_unit(items):
+    acc = Acc()
+    for tpl, name in items:
+        parts = tpl.replace("{N}", name).split("\u00a7")
+        k = len(parts) - 1
+        base_text = "".join(parts)
+        acc.count("states")
+        try:
+            base = value_dump(parse(base_text))
+        except exceptions.ODataException:
+            acc.count("raw_base_rejected")      # not an accepted filter: outside the quantifier
+            continue
+        for mask in range(1, 2 ** k):
+            for fill in (" ", "\t", "  \n"):
+                text = parts[0] + "".join((fill if mask >> i & 1 else "") + parts[i + 1] for i in range(k))
+                acc.count("executions")
+                acc.count("transitions")
+                acc.count("nontrivial")
+                try:
+                    got = value_dump(parse(text))
+                except exceptions.ODataException as e:
+                    acc.violation("raw-variant-rejected:%s" % type(e).__name__, {"canonical": base_text, "variant": text, "check": "raw", "error": str(e)[:120]})
+                    break
+                except Exception as e:  # noqa
+                    acc.violation("raw-variant-foreign-exception:%s" % type(e).__name__, {"canonical": base_text, "variant": text, "check": "raw"})
+                    break
+                if got != base:
+                    acc.violation("raw-ast-differs", {"canonical": base_text, "variant": text, "check": "raw", "expected": base, "observed": got})
+                    break
+                acc.outcome(("raw-ok",))
+            else:
+                continue
+            break
+    return acc
+
+
 def run(ctx):
     django_h.setup()
     SC.init_now()
@@ -305,6 +348,10 @@ def run(ctx):
     ctx.layer("layouts-and-case", filters=len(chosen), corpus=len(corp), exhaustive=not ctx.quick,
               backend_comparisons=int(ctx.counts["backend_comparisons"]),
               note="quick: small terms + extras + block VERIF_SEED mod 4 of the k=2 corpus; thorough: whole corpus")
+    raw = [(tpl, nm) for tpl in RAW_TEMPLATES for nm in RAW_NAMES]
+    ctx.pmap(_raw_unit, [raw[i::16] for i in range(16)])
+    ctx.layer("keyword-named-fields-optional-blanks", templates=len(RAW_TEMPLATES), names=len(RAW_NAMES), exhaustive=True,
+              note="fields, parameters and lambda variables called like a keyword: every subset of the optional-blank slots filled with blank / tab / blanks+newline")
 
 
 def _untuple(v):
@@ -319,7 +366,7 @@ def replay(ctx, case):
         b = parse(case["variant"])
     except Exception as e:  # noqa
         return {"canonical": case["canonical"], "variant": case["variant"], "error": repr(e)[:200], "ok": False}
-    if case["check"] == "ast":
+    if case["check"] in ("ast", "raw"):
         return {"canonical": case["canonical"], "variant": case["variant"], "ok": value_dump(a) == value_dump(b)}
     term = _untuple(case["term"])
     ex = "sql" not in case["backend"] or case["backend"] == "sqlite-exec"
